@@ -64,6 +64,8 @@ def judge(n, mode, files, base, dup, accmode, opts, res, known=()):
     o = [x for x in opts if not x.startswith("cvt:names")] + ["cvt:names=%d" % mode, "cvt:mip:eps=%s" % repr(2.0 ** -10)]
     run = conv.convert(n, acc, o, extra_files=extra)
     cobj = dict(model=nl.model_to_obj(n), mode=mode, files=files, base=base, dup=dup, accmode=accmode, opts=opts)
+    if common.alloc_limit(run, res):
+        return None
     if run.sanitizer or run.signal:
         return ("crash: %s" % common.crash_head(run.err), cobj, "crash")
     fm = run.dump
